@@ -11,6 +11,7 @@ CONSTANTS
   MaxCells = 2
   MaxMerges = 1
   MaxSheets = 2
+  KindSeq <- KindsAll
   Rots = {0, 5}
   Layouts <- LayTwo
 CONSTRAINT Emit
